@@ -2,6 +2,8 @@ import PgBifrost.Proofs.LedgerSimple.Main
 import PgBifrost.Proofs.LedgerRefine
 import PgBifrost.Proofs.LedgerSpecSound
 import PgBifrost.Proofs.SysExample
+import PgBifrost.Gen.Wiring
+import PgBifrost.Proofs.SysClient
 /-!
 # C01 — no WAL position is acknowledged before its data is in the sink (property theorems)
 
@@ -187,6 +189,30 @@ theorem sys_crash_restart_no_loss (bcfg : Batcher.Cfg) (redeliver : Bool) (acts 
           m ∈ (Sys.run ⟨K, bcfg⟩ crash).sinkAccepted ∨ big m = true :=
   Sys.crash_restart bcfg redeliver acts hE hs
 
+/-- **C01 end to end, client included (`flush_position_safe`).** Compose the replication client (model of
+`replication/client`, any variant, ANY list of received events — data, keepalives, timeouts, lost
+connections, error responses, blocked output) with the batcher ▸ workers ▸ tracker system: if the values the
+client reads from its progress channel are values the tracker emitted (the wiring fact
+`runner_wiring_as_modelled`: the client is started with `progressTracker.OutputChan`), then every flush
+position `a` it reports to PostgreSQL is either the position the server announced when the session started,
+or such that every data message of every delivery committed at or before `a` has been accepted by the sink
+(or dropped as too big). The client adds nothing of its own (C03 `acks_sourced`), the tracker's values are
+safe (`sys_crash_restart_no_loss`). -/
+theorem flush_position_safe (bcfg : Batcher.Cfg) (redeliver : Bool) (sacts : List Sys.Act)
+    (hE : Sys.Env redeliver K big bad dom sacts) (hs : Sys.Sched redeliver ⟨K, bcfg⟩ sacts)
+    (v : Client.Variant) (e : Client.Ev) (evs : List Client.Ev) (i : Nat)
+    (hi : PgBifrost.Spec.Client.initOf e = some i)
+    (hfeed : ∀ x ∈ SysClient.allFed (ClientProofs.hist v (e :: evs)), x ∈ (Sys.run ⟨K, bcfg⟩ sacts).acks) :
+    ∀ a ∈ PgBifrost.Spec.Client.statusesOf (PgBifrost.Spec.Client.acts (ClientProofs.hist v (e :: evs))),
+      a = i ∨
+      ∀ c ∈ Sys.fedMsgs sacts, c.op = .commit → c.lsn ≤ a →
+        ∀ m ∈ Sys.fedMsgs sacts, m.op = .data → m.key = c.key →
+          m ∈ (Sys.run ⟨K, bcfg⟩ sacts).sinkAccepted ∨ big m = true := by
+  intro a ha
+  rcases SysClient.status_sourced v e evs i hi a ha with h | h
+  · exact Or.inl h
+  · exact Or.inr (sys_crash_restart_no_loss bcfg redeliver sacts hE hs sacts (List.prefix_refl _) a (hfeed a h))
+
 /-- the same without redelivery (no scheduling hypothesis needed) -/
 theorem sys_ack_safe_noredelivery (bcfg : Batcher.Cfg) (acts : List Sys.Act)
     (hE : Sys.Env false K big bad dom acts) :
@@ -226,6 +252,16 @@ example : PgBifrost.Spec.Ledger.checkContract (Sys.ledgerTrace (Sys.run Sys.exCf
 example := sys_ack_safe Sys.exCfg.bcfg false Sys.exActs Sys.exEnv (Or.inl rfl) 104
   (by rw [show (⟨genericKind 2, Sys.exCfg.bcfg⟩ : Sys.Cfg) = Sys.exCfg from rfl, Sys.ex_acks]; decide)
 
+/-- non-vacuity of `flush_position_safe`: the client of a session announced at 100 is fed the two values the
+example system emits (104 at a receive timeout, 113 at the next one) and reports exactly 100, 104, 113 -/
+def exClientEvs : List Client.Ev :=
+  [⟨[], .keepalive false 100 0, false⟩, ⟨[], .timeout, false⟩, ⟨[104], .timeout, false⟩, ⟨[113], .timeout, false⟩]
+example : PgBifrost.Spec.Client.statusesOf (PgBifrost.Spec.Client.acts (ClientProofs.hist .fixedC exClientEvs)) =
+    [100, 104, 113] := by decide
+example := flush_position_safe Sys.exCfg.bcfg false Sys.exActs Sys.exEnv (Or.inl rfl) .fixedC
+  ⟨[], .keepalive false 100 0, false⟩ exClientEvs.tail 100 rfl
+  (by rw [show (⟨genericKind 2, Sys.exCfg.bcfg⟩ : Sys.Cfg) = Sys.exCfg from rfl, Sys.ex_acks]; decide)
+
 example := sys_crash_restart_no_loss Sys.exCfg.bcfg false Sys.exActs Sys.exEnv (Or.inl rfl) (Sys.exActs.take 20)
   (List.take_prefix _ _)
 
@@ -240,5 +276,33 @@ example := sys_ack_safe Sys.exCfg.bcfg true Sys.ex2Acts Sys.ex2Env (Or.inr Sys.e
   (by rw [show (⟨genericKind 2, Sys.exCfg.bcfg⟩ : Sys.Cfg) = Sys.exCfg from rfl, Sys.ex2_acks]; decide)
 
 end sys
+
+/-! ## the composition is the one `app/runner.go` builds
+
+`Model/Sys.lean` composes batcher, workers and tracker through two channels — seen lists handed over at a
+rendezvous (an UNBUFFERED channel: clause E3 of the ledger contract rests on it) and a FIFO of written
+reports — and feeds the tracker's output to the client. The facts below are regenerated from `app/runner.go`
+on every run. -/
+section wiring
+open PgBifrost.Gen.Wiring
+
+def argOf (callee : String) (i : Nat) : Option String :=
+  (runnerCalls.find? (·.1 == callee)).bind (·.2[i]?)
+
+theorem runner_wiring_as_modelled :
+    -- client ▸ filter ▸ partitioner ▸ marshaller ▸ batcher (transport manager)
+    argOf "filter.New" 1 = some "replicationClient.GetOutputChan()" ∧
+    argOf "partitioner.New" 1 = some "filterInstance.OutputChan" ∧
+    argOf "marshaller.New" 1 = some "partitionerInstance.OutputChan" ∧
+    argOf "manager.New" 1 = some "marshallerInstance.OutputChan" ∧
+    -- batcher/workers ▸ tracker: one seen channel, one written channel, shared by both ends
+    argOf "manager.New" 2 = some "txnsSeen" ∧ argOf "manager.New" 3 = some "txnsWritten" ∧
+    argOf "progress.New" 1 = some "txnsSeen" ∧ argOf "progress.New" 2 = some "txnsWritten" ∧
+    -- the seen channel is unbuffered ("Must be unbuffered to maintain seen -> written ordering")
+    runnerMakes.lookup "txnsSeen" = some "make(chan []*progress.Seen)" ∧
+    -- tracker ▸ client: the acknowledgements the client sends are the tracker's output
+    runnerGo.getLast? = some "r.replicationClient.Start(r.progressTracker.OutputChan)" := by decide
+
+end wiring
 
 end PgBifrost.Props.C01
